@@ -37,6 +37,8 @@ def detached(cev):
 
 class C04(Prop):
     id = 'C04'
+    k2_mask = {('server', 'id'), ('server', 'cust'), ('server', 'busy'), ('server', 'busy_time'), ('server', 'total_time'), ('server', '*'), ('ind', 'server'), ('ind', 'sst'), ('rec', 'server')}      # the slice of the engine state / records this property reads (DESIGN 7, table of slices)
+    k2_frames = 40
     num = 4
     regions = {'quick': [('core', 100), ('block', 140), ('routers', 40), ('renege', 40), ('sched', 60), ('sched_block', 60),
                          ('preempt', 50), ('schedpre', 40), ('dyn', 30), ('all', 40)]}
